@@ -37,12 +37,12 @@ type selfTestResult struct {
 	BenignApplied int      `json:"benign_applied"`
 	BenignQuiet   int      `json:"benign_quiet"`
 	FalseAlarms   []string `json:"false_alarms_on_benign_edits"`
-	Applied  int      `json:"applied"`
-	Detected int      `json:"detected"`
-	Skipped  int      `json:"skipped_patch_does_not_apply"`
-	Broken   int      `json:"skipped_does_not_type_check"`
-	Missed   []string `json:"missed"`
-	Details  []string `json:"details"`
+	Applied       int      `json:"applied"`
+	Detected      int      `json:"detected"`
+	Skipped       int      `json:"skipped_patch_does_not_apply"`
+	Broken        int      `json:"skipped_does_not_type_check"`
+	Missed        []string `json:"missed"`
+	Details       []string `json:"details"`
 }
 
 var propRe = regexp.MustCompile(`C[0-9]{2}`)
@@ -144,9 +144,9 @@ func runSelfTest(prop, repo, verif string) selfTestResult {
 		}
 	}
 	type outcome struct {
-		v       variant
-		status  string // detected | missed | skipped | broken
-		detail  string
+		v      variant
+		status string // detected | missed | skipped | broken
+		detail string
 	}
 	known := loadKnown(filepath.Join(verif, "known_findings.json"))
 	outs := make([]outcome, len(todo))
